@@ -356,6 +356,8 @@ class Analyzer:
             if n.kind != 'test':
                 continue
             bases = [n.ast]
+            if isinstance(n.ast, ast.NamedExpr):
+                bases.append(n.ast.value)   # `if (m := f(x)):` tests f(x)
             if expand and any(isinstance(x, ast.Name)
                               for x in ast.walk(n.ast)):
                 e2 = substitute_locals(f, n.ast,
